@@ -65,7 +65,10 @@ def main():
            'summary': meta.get('summary'),
            'needs_to_manifest': meta.get('needs_to_manifest'),
            'files_changed': meta.get('files_changed'),
-           'agent_report': meta.get('commands_run'), 'confirmed': {}}
+           'agent_report': meta.get('commands_run'), 'confirmed': {},
+           'base_commit': meta.get('base_commit') or subprocess.run(
+               ['git', '-C', '/repo', 'rev-parse', '--short', 'HEAD'],
+               capture_output=True, text=True).stdout.strip()}
     wt = f'/tmp/mut/seed_{name}'
     rc, o, _ = run(f'/verif/tools/mutant.py patch seed_{name} {patch}')
     if rc != 0:
